@@ -186,7 +186,7 @@ func (v *Value) Wire() interface{} {
 	case "bool":
 		return map[string]interface{}{"t": "bool", "b": v.B}
 	case "num":
-		return map[string]interface{}{"t": "num", "lit": v.Lit, "nc": NumClass(v.Lit)}
+		return map[string]interface{}{"t": "num", "lit": CpWire([]rune(v.Lit))}
 	case "str":
 		return map[string]interface{}{"t": "str", "cp": CpWire(v.Cp)}
 	case "arr":
@@ -228,7 +228,7 @@ func FromWire(raw json.RawMessage) (*Value, error) {
 	var h struct {
 		T   string            `json:"t"`
 		B   bool              `json:"b"`
-		Lit string            `json:"lit"`
+		Lit []int             `json:"lit"`
 		Cp  []int             `json:"cp"`
 		E   []json.RawMessage `json:"e"`
 		M   []struct {
@@ -245,7 +245,7 @@ func FromWire(raw json.RawMessage) (*Value, error) {
 	case "bool":
 		return Bool(h.B), nil
 	case "num":
-		return Num(h.Lit), nil
+		return Num(string(CpFromWire(h.Lit))), nil
 	case "str":
 		return StrCp(CpFromWire(h.Cp)), nil
 	case "arr":
